@@ -159,7 +159,7 @@ class CaseTimeout(BaseException):
     ``except Exception`` wrappers do not swallow it."""
 
 
-CASE_TIMEOUT = 3.0
+CASE_TIMEOUT = 8.0
 
 
 def _on_alarm(signum, frame):
